@@ -373,6 +373,13 @@ class TransferManager(BaseManager):
             await asyncio.gather(*transfer.cancel_tasks(), return_exceptions=True)
             await self._event_bus.emit(TransferRemovedEvent(transfer))
 
+        # The management cycle only withdraws the tracking reason of users that
+        # still have (finished) transfers: withdraw it here for a user whose
+        # last transfer was removed
+        if not any(other.username == transfer.username for other in self._transfers):
+            await self._user_manager.untrack_user(
+                transfer.username, TrackingFlag.TRANSFER)
+
         self.request_management_cycle(_RequestFlag.TRANSFER_CHANGE)
 
     def get_uploads(self) -> list[Transfer]:
